@@ -25,22 +25,59 @@ theorem insert_root_kind {v : Value} {K X : Kind} (h : memR v X = true) :
 theorem Conforms.setVar {s : St} {T : TState} {n : String} {v : Value} {d : Details} (hc : Conforms s T)
     (hv : mem v d.td.kind = true) (hvs : v.Sorted = true) (hcv : ∀ c, d.value = some c → v = c) :
     Conforms (s.setVar n v) (T.setVar n d) := by
-  refine ⟨hc.faults, ?_, hc.event, hc.eventSorted, hc.metadata, hc.metadataSorted⟩
-  intro m dm hm
-  by_cases hnm : n = m
-  · subst hnm
-    rw [TState.getVar_setVar_same] at hm
-    cases hm
-    exact ⟨v, St.getVar_setVar_same s n v, hv, hvs, hcv⟩
-  · rw [TState.getVar_setVar_other _ _ _ _ hnm] at hm
-    obtain ⟨w, h1, h2⟩ := hc.vars m dm hm
-    exact ⟨w, by rw [St.getVar_setVar_other _ _ _ _ hnm]; exact h1, h2⟩
+  refine ⟨hc.faults, ?_, hc.event, hc.eventSorted, hc.metadata, hc.metadataSorted, ?_⟩
+  · intro m dm hm
+    by_cases hnm : n = m
+    · subst hnm
+      rw [TState.getVar_setVar_same] at hm
+      cases hm
+      exact ⟨v, St.getVar_setVar_same s n v, hv, hvs, hcv⟩
+    · rw [TState.getVar_setVar_other _ _ _ _ hnm] at hm
+      obtain ⟨w, h1, h2⟩ := hc.vars m dm hm
+      exact ⟨w, by rw [St.getVar_setVar_other _ _ _ _ hnm]; exact h1, h2⟩
+  · intro m w hm
+    by_cases hnm : n = m
+    · subst hnm; left; rw [TState.getVar_setVar_same]; rfl
+    · rw [St.getVar_setVar_other _ _ _ _ hnm] at hm
+      rcases hc.closed m w hm with h | h
+      · left; rw [TState.getVar_setVar_other _ _ _ _ hnm]; exact h
+      · right; exact h
 
 theorem insertOk_of_checks {K : Kind} {p : Path} (h : AllNan (insertChecks K p)) : insertOk K p = true := by
   unfold insertChecks at h
   simp only [allNan_append] at h
   rw [allNan_chk (by decide), allNan_chk (by decide)] at h
   simp [insertOk, h.1, h.2]
+
+/-- a path assignment to a variable that does not exist creates it from nothing -/
+theorem insertOpt_null_eq_none (p : Path) (hp : p ≠ []) (x : Value) :
+    Value.insertOpt (some .null) p x = Value.insertOpt none p x := by
+  cases p with
+  | nil => exact absurd rfl hp
+  | cons sg rest => cases sg <;> simp [Value.insertOpt, Value.asMap, Value.asList, VList.getIdx, VList.arrayIndex, VMap.get]
+
+theorem insertRec_never_eq_undefined (p : Path) (hp : p ≠ []) (X : Kind) (hX : X.isNever = false) :
+    Kind.never.insertRec p X = Kind.undefined.insertRec p X := by
+  cases p with
+  | nil => exact absurd rfl hp
+  | cons sg rest => cases sg <;> simp [Kind.insertRec, Kind.object, Kind.array, Kind.never, Kind.undefined, hX]
+
+theorem mem_insert_absent {x v' : Value} {prev : Option Value} {X : Kind} {p : Path} (hp : p ≠ [])
+    (hx : memR x X = true) (hxs : x.Sorted = true) (ok : insertOk Kind.undefined p = true)
+    (hi : Value.null.insert p x = .ok (v', prev)) :
+    mem v' (Kind.never.insert p X) = true ∧ v'.Sorted = true := by
+  refine ⟨?_, C18.insert_sorted .null p x v' prev rfl hxs hi⟩
+  simp only [insertOk, insertClassOk, Bool.and_eq_true, Bool.not_eq_true'] at ok
+  have := insertRec_sound p none Kind.undefined x X.upgradeUndefined rfl (by decide)
+    (mem_upgrade_of_memR hx) ok.1 ok.2.1 ok.2.2
+  unfold Value.insert at hi
+  split at hi
+  · cases hi
+  · cases hi
+    rw [insertOpt_null_eq_none p hp]
+    simp only [Kind.insert]
+    rw [insertRec_never_eq_undefined p hp _ (not_never_of_mem x _ (mem_upgrade_of_memR hx))]
+    exact this
 
 theorem targetInsert_eq {s s' : St} (hf : s.faults = []) {m : Bool} {p : Path} {v : Value}
     (hi : s.targetInsert m p v = some s') :
@@ -72,7 +109,7 @@ theorem tgt_insert_conforms {s s' : St} {T : TState} (t : Tgt) (v : Value) (new 
     simp only [Tgt.insertTypeDef]
     refine Conforms.of_tstate (T := T.setVar n
       { td := (match T.getVar n with | none => TypeDef.never | some d => d.td).withTypeInserted p new,
-        value := if p.isEmpty = true then c else none }) rfl rfl rfl ?_
+        value := if p.isEmpty = true then c else none }) rfl rfl rfl rfl ?_
     simp only [Tgt.insert] at hi
     by_cases hp : p.isEmpty = true
     · -- the whole variable
@@ -89,9 +126,34 @@ theorem tgt_insert_conforms {s s' : St} {T : TState} (t : Tgt) (v : Value) (new 
       simp only [tgtChecks] at hk
       cases hd : T.getVar n with
       | none =>
+        -- the variable is not in scope and no block left one of that name alive: it is created
         rw [hd] at hk
+        simp only [hp, Bool.false_eq_true, if_false, allNan_append] at hk
         rw [allNan_chk (by decide)] at hk
-        exact absurd hk hp
+        have hnl : n ∉ T.leaked := by simpa using hk.1
+        have hok := insertOk_of_checks hk.2
+        have habs : s.getVar n = none := by
+          cases hg : s.getVar n with
+          | none => rfl
+          | some w =>
+            rcases hc.closed n w hg with h | h
+            · rw [hd] at h; cases h
+            · exact absurd h hnl
+        rw [habs] at hi
+        simp only at hi
+        have hpne : p ≠ [] := by intro h; subst h; simp at hp
+        cases hins : Value.null.insert p v with
+        | panic => rw [hins] at hi; cases hi
+        | ok r =>
+          obtain ⟨v', prev⟩ := r
+          rw [hins] at hi
+          simp only [Option.some.injEq] at hi
+          subst hi
+          have := mem_insert_absent hpne hv hvs hok hins
+          apply Conforms.setVar hc
+          · exact this.1
+          · exact this.2
+          · intro cv h; cases h
       | some d =>
         rw [hd] at hk
         have hk := insertOk_of_checks hk
@@ -122,20 +184,24 @@ theorem tgt_insert_conforms {s s' : St} {T : TState} (t : Tgt) (v : Value) (new 
       simp only [TState.extKind, Bool.false_eq_true, if_false] at hk
       have := mem_insert hc.event hc.eventSorted hv hvs hk hins
       refine ⟨by rw [hfa]; exact hc.faults, ?_, ?_, by rw [hrest.1]; exact this.2,
-        by rw [hrest.2]; exact hc.metadata, by rw [hrest.2]; exact hc.metadataSorted⟩
+        by rw [hrest.2]; exact hc.metadata, by rw [hrest.2]; exact hc.metadataSorted, ?_⟩
       · intro n d hd
         obtain ⟨w, h1, h2⟩ := hc.vars n d hd
         exact ⟨w, by simpa [St.getVar, hvars] using h1, h2⟩
       · rw [hrest.1]; exact this.1
+      · intro n w hn
+        exact hc.closed n w (by simpa [St.getVar, hvars] using hn)
     | true =>
       simp only [if_true] at hins hrest
       simp only [TState.extKind, if_true] at hk
       have := mem_insert hc.metadata hc.metadataSorted hv hvs hk hins
       refine ⟨by rw [hfa]; exact hc.faults, ?_, by rw [hrest.2]; exact hc.event,
-        by rw [hrest.2]; exact hc.eventSorted, ?_, by rw [hrest.1]; exact this.2⟩
+        by rw [hrest.2]; exact hc.eventSorted, ?_, by rw [hrest.1]; exact this.2, ?_⟩
       · intro n d hd
         obtain ⟨w, h1, h2⟩ := hc.vars n d hd
         exact ⟨w, by simpa [St.getVar, hvars] using h1, h2⟩
       · rw [hrest.1]; exact this.1
+      · intro n w hn
+        exact hc.closed n w (by simpa [St.getVar, hvars] using hn)
 
 end Lang
